@@ -558,4 +558,43 @@ theorem attinv_step_shmat (g : G) (t : Tid) (intr : Bool) (hid : Hid) (s : ShmSt
         simp only [Addr.at.injEq] at e
         omega
 
+theorem sem_next_procs (p : Pid) (intr : Bool) (st : SemSt) (os : OS) (nm : Nat) : (sysStep p intr st.next os nm).1.procs = os.procs := by
+  apply sysStep_procs
+  · intro id fl e
+    obtain ⟨api, sh, spc, _, _, _⟩ := st
+    cases spc <;> simp [SemSt.next] at e
+  · intro a e
+    obtain ⟨api, sh, spc, _, _, _⟩ := st
+    cases spc <;> simp [SemSt.next] at e
+
+theorem attinv_step_semkinds (g : G) (t : Tid) (intr : Bool) (c : Call) (hi : AttInv g) (hc : g.calls t = some c)
+    (hk : (∃ hid s, c = .semNew hid s) ∨ (∃ s, c = .semFree s) ∨ (∃ hid s, c = .semOp hid s)) : AttInv (g.step t intr) := by
+  rcases hk with ⟨hid, s, rfl⟩ | ⟨s, rfl⟩ | ⟨hid, s, rfl⟩
+  all_goals
+    refine attinv_step_plain g t intr _ hi hc (sem_next_procs _ _ s _ _) ?_
+    simp only [Call.next, Call.name, Call.after]
+    cases hr : s.after (sysStep (g.pidOf t) intr s.next g.os 0).2 with
+    | cont s' => trivial
+    | done x =>
+      obtain ⟨h, e⟩ := x
+      first
+      | (cases e <;> trivial)
+      | trivial
+
+theorem attinv_step_lock (g : G) (t : Tid) (intr : Bool) (hid : Hid) (m : PShm) (s : SemSt) (hi : AttInv g)
+    (hc : g.calls t = some (.lockOp hid m s)) : AttInv (g.step t intr) := by
+  have hinv := hi.calls t _ hc
+  simp only [Call.ainv] at hinv
+  cases hr : s.after (sysStep (g.pidOf t) intr s.next g.os 0).2 with
+  | cont s' =>
+    refine attinv_step_plain g t intr _ hi hc (sem_next_procs _ _ s _ _) ?_
+    simp only [Call.next, Call.name, Call.after, hr]
+    exact hinv
+  | done x =>
+    obtain ⟨h, e⟩ := x
+    refine attinv_step_store g t intr _ hid { m with sem := some h } (retOf e) hi hc (sem_next_procs _ _ s _ _) ?_ ?_ hinv.2
+    · simp only [Call.next, Call.name, Call.after, hr]
+    · obtain ⟨a, att, e1, e2, e3⟩ := hinv.1
+      exact ⟨a, att, e1, e2, e3⟩
+
 end PV.SysV
